@@ -200,7 +200,7 @@ func RunC20(ctx *core.Ctx) *core.Violation {
 			// every task on the same input (own copies): with probability 1/4 a deeply nested one
 			if t.Chance(1, 16) {
 				// stress configuration: deepest legal nesting, no pruning in visitors, maximum number of tasks
-				ins[0].data = deepInput(wlLang[ins[0].kind], t.Pick(40, 300, 900, 950))
+				ins[0].data = deepInput(wlLang[ins[0].kind], t.Pick(40, 300, 900, 950, 999, 1000, 1001))
 				ins[0].opt &^= 0x1c
 				for len(ins) < 6 {
 					ins = append(ins, wlInput{})
